@@ -4,6 +4,8 @@
 package main
 
 import (
+	"path/filepath"
+	"os"
 	"strconv"
 
 	"znverif/hlib"
@@ -188,6 +190,19 @@ func register() {
 		var err error
 		disp := hlib.CaptureStdout(func() {
 			z := exec.NewInterpreter("verif").SetExternalLibs([]*r.Library{libJson.Export(), libFile.Export()})
+			if asFile, _ := in["file"].(bool); asFile {
+				// the program comes from a file (read in blocks, decoded, one leading BOM removed): the literal is the same
+				dir, derr := os.MkdirTemp("", "znc13")
+				if derr != nil {
+					err = derr
+					return
+				}
+				defer os.RemoveAll(dir)
+				p := filepath.Join(dir, "a.zn")
+				os.WriteFile(p, []byte(string(src)), 0644)
+				elem, err = z.LoadFile(p).Execute(r.ElementMap{})
+				return
+			}
 			elem, err = z.LoadScript(src).Execute(r.ElementMap{})
 		})
 		out := map[string]interface{}{"display": hlib.RunesOf(disp)}
